@@ -5,7 +5,7 @@ rule = ("for each of the 22 indicators (periods 1..4 and sampled larger): two in
         "position (every prefix position for short histories: fresh, warming up, full window, just reset; random positions in long ones) "
         "slot 0 is serialized with bincode and replaced by the deserialized value (sometimes twice in a row, sometimes again later), "
         "then both are probed and fed a common continuation of >= period+2 inputs; the serialized bytes of both are compared with the "
-        "model's byte image at the end. Plus, per indicator, one long run: 1000 inputs behind a 1e14 magnitude cliff, round-trip, 1200 more inputs. DataItem round-trips are covered by the builder probes of C16. Non-trivial: distinct case "
+        "model's byte image at the end. Plus periods 2^31, 2^32+9, 2^53+1 for the allocation-free kinds and 65537 for the windowed ones (implementation only), and, per indicator, one long run: 1000 inputs behind a 1e14 magnitude cliff, round-trip, 1200 more inputs. DataItem round-trips are covered by the builder probes of C16. Non-trivial: distinct case "
         "with at least one input after the round-trip")
 assumptions = ["bincode 1.3 default options; serde derive expansion is modelled (item layout), not verified"]
 
@@ -58,6 +58,33 @@ def gen_cases(ctx):
             if k == 1000:
                 ops += [("s", 0), ("d", 0), ("d", 1)]
         cases.append(Case("%s_long_at1000" % ind, ops, dump=(0, 1), meta={"ind": ind, "params": pr[:3], "pos": 1000, "after": 1200}))
+    # parameters beyond 2^16 and 2^32 (seed-independent): a deserializer that bounds the window "against huge allocations", a period
+    # written as a 32-bit integer. Allocation-free kinds take periods around 2^32 (with T1); the windowed ones period 65 537 on the
+    # implementation only (the list-based model costs O(period) per ring update)
+    for ind in ("EMA", "ATR", "RSI", "MACD", "PPO", "KC"):
+        for big in (2 ** 32 + 9, 2 ** 31, 2 ** 53 + 1):
+            k = nper(ind)
+            pr = (big, 2 ** 32 + 3 if k >= 2 else 0, 9 if k >= 3 else 0, 2.0 if ind in HAS_MULT else 0.0)
+            fd = long_feed(ind, 12)
+            ops = [new_op(0, ind, pr), new_op(1, ind, pr)]
+            for k_, o in enumerate(fd):
+                ops += [o, (o[0], 1) + tuple(o[2:])]
+                if k_ == 5:
+                    ops += [("s", 0), ("d", 0), ("d", 1)]
+            cases.append(Case("%s_bigparam_%d" % (ind, big), ops, dump=(0, 1), meta={"ind": ind, "params": pr[:3], "pos": 6, "after": 6}))
+    for ind in ALL:
+        if nper(ind) == 0 or ind in ("EMA", "ATR", "RSI", "MACD", "PPO", "KC") or (ind in ("MAD", "CCI", "ER") and not ctx.thorough):
+            continue
+        p = 65537
+        k = nper(ind)
+        pr = (p, 3 if k >= 2 else 0, 2 if k >= 3 else 0, 2.0 if ind in HAS_MULT else 0.0)
+        fd = long_feed(ind, 60)
+        ops = [new_op(0, ind, pr), new_op(1, ind, pr)]
+        for k_, o in enumerate(fd):
+            ops += [o, (o[0], 1) + tuple(o[2:])]
+            if k_ == 40:
+                ops += [("s", 0), ("d", 0), ("d", 1)]
+        cases.append(Case("%s_bigwindow_%d" % (ind, p), ops, dump=(), meta={"ind": ind, "params": pr[:3], "pos": 41, "after": 19, "harness_only": True}))
     # DataItem round-trips (builder probe: build, serialize, deserialize, compare field bits)
     vals = [0.0, -0.0, 1.0, 2.5, 1e-300, 1e300, 5e-324, float("inf")]
     k = 0
